@@ -119,6 +119,54 @@ func runRace(args []string) {
 			}(int64(cases)*1000 + int64(g))
 		}
 		wg.Wait()
+		// second phase — first use: the packets are built afresh and the goroutines start on them together, with no
+		// read-only operation having completed before (a write that only the first WriteTo/String performs, a lazily
+		// filled cache, is over by the time the sequential reference above has run)
+		for round := 0; round < 3; round++ {
+			e2 := newExecutor()
+			for _, l := range caseLines {
+				if t := strings.Fields(l); len(t) > 0 && (t[0] == "NEW" || t[0] == "ZERO" || t[0] == "SET") {
+					e2.exec(l)
+				}
+			}
+			var fresh []mq.ControlPacket
+			for _, name := range sortedSlotNames(e2.slots) {
+				if s := e2.slots[name]; !s.tainted && s.p != nil {
+					fresh = append(fresh, s.p)
+				}
+			}
+			if len(fresh) != len(shared) {
+				break
+			}
+			start := make(chan struct{})
+			var wg2 sync.WaitGroup
+			for g := 0; g < gor; g++ {
+				wg2.Add(1)
+				go func(g int) {
+					defer wg2.Done()
+					<-start
+					for i, p := range fresh {
+						atomic.AddInt64(&ops, 1)
+						func() {
+							defer func() { recover() }()
+							if (g+i)%3 == 2 {
+								_ = p.String()
+								return
+							}
+							var buf bytes.Buffer
+							p.WriteTo(&buf)
+							if !bytes.Equal(buf.Bytes(), want[i]) {
+								if atomic.AddInt64(&mismatches, 1) == 1 {
+									firstBad = fmt.Sprintf("first concurrent WriteTo of %s differs from the sequential bytes", kindOf(p))
+								}
+							}
+						}()
+					}
+				}(g)
+			}
+			close(start)
+			wg2.Wait()
+		}
 	}
 	for sc.Scan() {
 		line := sc.Text()
